@@ -32,6 +32,40 @@ def run(rep, prog, tier):
     rep.not_decided += ["exactness under block-max WAND pruning, thresholds and float sums (values)", "that DocSets really emit ascending docs (C13, not applicable to this family)"]
     r1(rep, prog)
     r2(rep, prog)
+    r3(rep, prog)
+
+
+def r3(rep, prog):
+    """codec pairing of the block-max metadata in the skip list: what the serializer writes through
+    an encode_* helper, the reader must read through the matching decode_* helper on every arm"""
+    R = "C06-R3"
+    rep.rule(R, "block-max metadata codec pairing: the skip serializer writes the block-WAND max term frequency through encode_block_wand_max_tf and the bit width through encode_bitwidth; every BlockInfo::BitPacked the skip reader builds takes block_wand_term_freq from decode_block_wand_max_tf (or the constant 0 when no frequencies are indexed) and doc_num_bits from decode_bitwidth (an under-decoded bound lets block-WAND prune a block holding a better document)")
+    S = "tantivy::postings::skip::"
+    wb = get_body(rep, prog, R, S + "SkipSerializer::write_blockwand_max")
+    if wb is not None:
+        enc = calls_to(prog, wb, {S + "encode_block_wand_max_tf"})
+        rep.check(len(enc) == 1, R, "the serializer encodes the max term frequency", "encode_block_wand_max_tf", "SkipSerializer::write_blockwand_max no longer uses encode_block_wand_max_tf", site=wb.span)
+    rb = get_body(rep, prog, R, S + "SkipReader::read_block_info")
+    if rb is None:
+        return
+    aggs = [(bi, st) for bi in rb.normal_blocks() for st in rb.stmts(bi) if st.get("r") == "agg" and st.get("adt") == S + "BlockInfo" and st.get("variant") == "BitPacked"]
+    rep.floor(R, "BlockInfo::BitPacked literals in read_block_info", len(aggs), 3)
+    for k, (bi, st) in enumerate(aggs):
+        i = st["fields"].index("block_wand_term_freq")
+        o = st["o"][i]
+        okk = o.get("v") == "0"
+        why = "constant 0 (no frequencies)"
+        if not okk and op_local(o) is not None:
+            tr = trace_back(rb, op_local(o))
+            okk = bool(tr) and tr[-1][0] == "call" and tr[-1][1] == S + "decode_block_wand_max_tf"
+            why = "decode_block_wand_max_tf(byte)" if okk else "source: %s" % (str(tr[-1][:2]) if tr else "?")
+        rep.check(okk, R, "read_block_info arm #%d decodes block_wand_term_freq" % (k + 1), why,
+                  "an arm of SkipReader::read_block_info reads the block-max term frequency without decode_block_wand_max_tf (%s): the saturated code 255 must mean 'at least 255', "
+                  "otherwise the block-max score is under-estimated and block-WAND skips blocks that hold better documents" % why, site=site(rb, bi))
+        j = st["fields"].index("doc_num_bits")
+        tr = trace_back(rb, op_local(st["o"][j])) if op_local(st["o"][j]) is not None else []
+        rep.check(any(s[0] == "call" and s[1] == S + "decode_bitwidth" for s in tr), R, "read_block_info arm #%d decodes the bit width" % (k + 1), "decode_bitwidth(byte)",
+                  "an arm of read_block_info takes doc_num_bits without decode_bitwidth", site=site(rb, bi))
 
 
 def r1(rep, prog):
